@@ -134,6 +134,8 @@ def rand_op(r):
             if "%s" in segs[-1]:
                 segs[-1] = segs[-1].replace("%s", n2)
     path = "/" + "/".join(segs)
+    if segs and r.random() < 0.06:
+        path += "/" if r.random() < 0.7 else "//x"          # empty segments: trailing slash, `//` (finding F03-9)
     if r.random() < 0.05:
         path += r.choice(["?x=1", "/{", "/}", "/{}", "/{a{b}}"])
     params = []
